@@ -167,6 +167,17 @@ CHECKS["C10"] = dict(
     note="Only scalar positions are asserted. The roles from/to of query-to-query comparisons are not asserted (the statement only requires that reported paths point into the document).",
     ref="DESIGN.md §6 P-C10")
 
+CHECKS["C08"] = dict(
+    technique="runtime monitoring: crash/hang watchdog monitor over mutation and adversarial-grammar workloads, plus valgrind memcheck on the unsafe YAML loader paths",
+    text="Mutated rule texts, 28 adversarial but grammatical program shapes (filters after this/index/filter/keys, literal and function LHS, unary "
+         "operators on literals, mismatched/empty/unresolved function arguments, huge indices, self/mutual/when recursion, wrong arity, backtracking "
+         "regexes, multi-byte substrings ...), generated programs with all features on, and 24 hostile documents plus mutated ones (as data, parameter file, "
+         "test spec, payload envelope) are run through validate (files, payload, structured), test, parse-tree, rulegen (real processes, non-UTF-8 files) and "
+         "run_checks. The worker captures panics with file:line, the orchestrator attributes process deaths and watchdog expiries to the running job; rejected "
+         "rules files must name line and column and evaluate nothing; valgrind memcheck watches the libyaml loader, payload and FFI paths.",
+    note="Release profile. Signatures are (kind, in-repo file:line), so a new panic site is a new violation. valgrind runs with --undef-value-errors=no; Miri/ASan are not part of the registered check (see DESIGN §7).",
+    ref="DESIGN.md §6 P-C08")
+
 PENDING = {}
 
 
